@@ -51,15 +51,50 @@ class Lnk(Engine):
             for _ in range(rng.choice([0, 3, 40])):
                 ops.append('drain')
             yield Case(f'rand{i}', ops)
-        # hash growth: more than 2*1024 live groups, twice
+        # same-bucket chains: several live groups whose hashes agree modulo the table size, completing in
+        # every relative order (exercises unlinking from the head, middle and tail of a chain)
+        for i in range(250 if tier == 'quick' else 4000):
+            strat = rng.choice(STRATS)
+            base = rng.choice([5, 77, 1023, 4096 + 9])
+            ng = rng.choice([3, 3, 4, 5, 6])
+            groups = [(rng.choice([0, 0, 1024]), base + 1024 * j, rng.choice([2, 2, 3])) for j in range(ng)]
+            members = []
+            for gi, (d, ino, nl) in enumerate(groups):
+                k = nl if rng.random() < 0.8 else nl - 1      # some groups never complete
+                members += [gi] * k
+            # first members in order (fixes the chain order), the rest shuffled
+            firsts = list(range(ng)); rest = [g for g in members]
+            for g in firsts:
+                rest.remove(g)
+            rng.shuffle(rest)
+            ops = ['strategy ' + strat]; tag = 0
+            for g in firsts + rest:
+                tag += 1
+                d, ino, nl = groups[g]
+                ops.append(f'push {tag} {d} {ino} {nl} reg')
+                if rng.random() < 0.1:
+                    ops.append('drain')
+            # restart completed groups, then drain everything
+            for g in rng.sample(range(ng), 2):
+                tag += 1; d, ino, nl = groups[g]
+                ops.append(f'push {tag} {d} {ino} {nl} reg')
+            ops += ['drain'] * (len(members) + 4)
+            yield Case(f'chain{i}', ops)
+        # hash growth: more than 2*1024 live groups (twice), keys with every bit pattern in the bits that
+        # select the bucket before and after growth; every group gets its later members afterwards
         for strat in (['newcpio', 'tar'] if tier == 'quick' else STRATS):
             ops = ['strategy ' + strat]
-            N = 4200
-            for t in range(1, N + 1):
-                ops.append(f'push {t} {t % 3} {t} 3 reg')
-            for j, t in enumerate(range(1, N + 1, 5)):   # second members, old and new halves of the table
-                ops.append(f'push {N + 1 + j} {t % 3} {t} 3 reg')
-            ops += ['drain'] * (N + 10)
+            N = 4300
+            xor = rng.choice([0, 1024, 2048, 3072, 0x5555])
+            keys = [(t % 3, (t * 2654435761 % 100003) ^ xor if t % 2 else t ^ xor) for t in range(1, N + 1)]
+            keys = list(dict.fromkeys(keys))
+            for t, (d, ino) in enumerate(keys, 1):
+                ops.append(f'push {t} {d} {ino} 3 reg')
+            order = list(range(len(keys))); rng.shuffle(order)
+            for j, idx in enumerate(order):
+                d, ino = keys[idx]
+                ops.append(f'push {len(keys) + 1 + j} {d} {ino} 3 reg')
+            ops += ['drain'] * (len(keys) + 10)
             ops += ['partial'] * 20
             yield Case('grow-' + strat, ops)
 
